@@ -61,6 +61,10 @@ def analyse(repo, rep, mod, fn, cat_of_const, names, ALL_CATS):
         if n.kind == "stmt":
             a = n.ast
             for c in calls_at(n):
+                if (dotted(c.func) or "") in ("self.abort", "self.assoc.abort", "ctx.assoc.abort"):
+                    # the library itself ends the association (e.g. a request on a context that
+                    # was not accepted is not a valid request): no response can or may follow
+                    excused = True
                 if _is_send(c) or _is_delegate(c):
                     n_sends[0] += 1
                     if closed:
